@@ -880,3 +880,10 @@ def gen_C19_scaled(r, tier):
             scale_case(c, k)
     return out
 PROPS["C19"]["gen"] = gen_C19_scaled
+
+PROPS["C15"]["model"] = True
+PROPS["C15"]["tags"] = PROPS["C15"]["tags"] + ["corr"]
+PROPS["C01"]["model"] = True
+PROPS["C01"]["tags"] = PROPS["C01"]["tags"] + ["corr"]
+PROPS["C05"]["model"] = True
+PROPS["C05"]["tags"] = PROPS["C05"]["tags"] + ["corr"]
